@@ -157,6 +157,7 @@ func Harness_C18_CompactStep() {
 	}
 	ll := NewLevelListOfTables([][]*Table{l0, l1, l2, base})
 	verifLayoutValid(ll, "initial")
+	verif.Assert(ll.LatestSeqNum == seq, "latest-seq-num-is-the-newest-flushed-sequence-number")
 
 	settings := verif.Choose("settings", 3)
 	c := &Compactor{TableWriter: tw, LevelSizeMultiplier: 10,
@@ -221,6 +222,9 @@ func Harness_C18_CompactStep() {
 			}
 		}
 		verifLayoutValid(ll, "after-step")
+		// the WAL truncation / checkpoint start marker: the newest sequence number that reached the
+		// tables never moves backwards and is never ahead of what was flushed
+		verif.Assert(ll.LatestSeqNum == seq, "latest-seq-num-is-the-newest-flushed-sequence-number")
 	}
 	verif.Reached()
 }
